@@ -6,6 +6,8 @@ asserts of dev-profile MIR; f64 is either exact IEEE (mode 'fp') or the real rel
 import functools
 import re
 
+import time
+
 import z3
 
 from .mirparse import Unsupported, parse_operand, parse_place, split_top, strip_generics
@@ -206,6 +208,8 @@ class Exec:
         self.n_feas = 0
         self.const_cache = {}
         self.max_paths = 4000
+        self.max_steps = 400      # basic blocks per function invocation (loops): exceeding it is a refusal, never a pass
+        self.deadline = None      # time.time() after which the enumeration gives up (reported as inconclusive, never as a pass)
         self.inputs = {}          # name -> term (for model extraction)
         self.trace_calls = set()
         self.forbid_variants = {"TokenType": ["Variable", "Field"]}
@@ -296,6 +300,8 @@ class Exec:
     # ------------------------------------------------------------ feasibility
     def feasible(self, path, extra=None):
         self.n_feas += 1
+        if self.deadline is not None and time.time() > self.deadline:
+            raise Unsupported("the time budget of this enumeration is exhausted (unfinished, not a pass)")
         self.solver.push()
         try:
             for c in self.domain:
@@ -407,6 +413,11 @@ class Exec:
             return OpaqueV(text)
         if text.startswith("log::") or text.startswith("log::__private_api"):
             return OpaqueV(text[:40])
+        if text.startswith('b"') and text.endswith('"'):
+            try:
+                return BytesV(bytes(text[2:-1], "latin-1").decode("unicode_escape").encode("latin-1"))
+            except (UnicodeError, ValueError):
+                return OpaqueV(text[:30])
         if text.startswith('b"') or text in ("RangeFull", "core::ops::RangeFull") or text.startswith("{") or text.startswith("&"):
             return OpaqueV(text[:30])   # byte-string format templates, unit structs, promoted references: never inspected
         m = re.match(r"^(?:f64::|core::f64::|std::f64::)(?:<impl f64>::|consts::)?(EPSILON|MAX|MIN|INFINITY|NAN)$", text)
@@ -758,8 +769,10 @@ class Exec:
         yield from self.block(fn, "bb0", env, path, depth, 0)
 
     def block(self, fn, bb, env, path, depth, steps):
-        if steps > 400:
+        if steps > self.max_steps:
             raise Unsupported("block budget exceeded in %s (loop?)" % fn.name)
+        if self.deadline is not None and time.time() > self.deadline:
+            raise Unsupported("the time budget of this enumeration is exhausted (unfinished, not a pass)")
         stmts = fn.blocks[bb]
         env = dict(env)
         for st in stmts[:-1]:
